@@ -52,6 +52,11 @@ fn one(t: &[&str]) -> String {
             "navx" => crate::avx_kern::q120::<NTT120Avx>(&r),
             _ => "bad-be".to_string(),
         },
+        "cnvk" => match r.get("be").unwrap_or("") {
+            "fref" => crate::avx_kern::cnvk::<FFT64Ref>(&r),
+            "favx" => crate::avx_kern::cnvk::<FFT64Avx>(&r),
+            _ => "bad-be".to_string(),
+        },
         "nk" => match r.get("be").unwrap_or("") {
             "nref" => crate::avx_kern::nk::<NTT120Ref>(&r),
             "navx" => crate::avx_kern::nk::<NTT120Avx>(&r),
@@ -79,7 +84,13 @@ pub fn run(_args: &[String]) {
         let res = std::panic::catch_unwind(std::panic::AssertUnwindSafe(|| one(&t[1..])));
         match res {
             Ok(s) => writeln!(out, "{id} {s}").unwrap(),
-            Err(p) => writeln!(out, "{id} panic:{}", classify(p.as_ref())).unwrap(),
+            Err(p) => {
+                if std::env::var("PVH_PANIC_MSG").is_ok() {
+                    let m = p.downcast_ref::<&str>().map(|s| s.to_string()).or(p.downcast_ref::<String>().cloned()).unwrap_or_default();
+                    eprintln!("{id} panic message: {m}");
+                }
+                writeln!(out, "{id} panic:{}", classify(p.as_ref())).unwrap()
+            }
         }
     }
     out.flush().unwrap();
